@@ -84,7 +84,7 @@ func CheckC18(c *Ctx) int {
 		scs = append(scs, Scenario{Name: fmt.Sprintf("c18-%d-%d", c.Seed, i), Kind: "size", Seed: c.Seed*2203 + int64(i), Opts: o, Profile: prof, Observe: true,
 			Params: map[string]int{"rounds": 22, "burst": 20 + rng.Intn(60)}})
 	}
-	o := RunScenarios(scs, ValidateSpec{KV: true, Bolt: true}, filepath.Join(c.WorkDir, "runs"), 14, 4, 10*time.Minute)
+	o := RunScenarios(scs, ValidateSpec{KV: true, Bolt: true}, filepath.Join(c.WorkDir, "runs"), 14, 4, c.ChildTimeout())
 	c.Absorb(o)
 	c.Cov["evaluations"] = o.Counters["decoded"]
 	c.Cov["distinct_nontrivial"] = DistinctNontrivial(o.PerScenario, func(m map[string]int) bool { return m["size_refused"] > 0 })
